@@ -14,6 +14,7 @@ import (
 )
 
 type Clause struct {
+	Optional bool // dropped (with a note) when it mentions an identifier that no longer exists
 	Kind string
 	Expr *SExpr
 	Src  string
@@ -382,11 +383,12 @@ func (cs *Contracts) loadFile(file, pkgPath string) error {
 				cur.Loops[id] = ls
 			}
 			switch k2 {
-			case "invariant":
+			case "invariant", "invariant?":
 				c, err := mkClause("invariant", r3, rl)
 				if err != nil {
 					return err
 				}
+				c.Optional = k2 == "invariant?"
 				ls.Invariants = append(ls.Invariants, c)
 			case "modifies":
 				ls.HasMod = true
